@@ -402,3 +402,27 @@ VARIANTS += [
     V('C05', 'twin: swap via tuple assignment', IE, "        feature_one = feature_two\n        feature_two = args.label_column\n", "        feature_one, feature_two = feature_two, feature_one\n", expect='clean'),
     V('C05', 'twin: astype widening', COVF, "    array1 = np.asarray(array1, dtype=np.int64)\n", "    array1 = array1.astype(np.int64)\n", expect='clean'),
 ]
+
+# ---------------------------------------------------------------- C09
+RTF2 = 'outrank/feature_transformations/ranking_transformers.py'
+VARIANTS += [
+    V('C09', 'F14a reintroduced: list(focus_set)', CR, "input_dataframe = input_dataframe[[x for x in input_dataframe.columns if x in focus_set]]", "input_dataframe = input_dataframe[list(focus_set)]"),
+    V('C09', 'F14b reintroduced: MULTIEX in set order', CR, "        for unique_value in sorted(unique_values):", "        for unique_value in unique_values:"),
+    V('C09', 'F14c reintroduced: transformer columns in set order', RTF2, "        for numeric_column in sorted(self.numeric_column_names):", "        for numeric_column in self.numeric_column_names:"),
+    V('C09', 'F19 reintroduced: reference features in set order', CR, "for item in sorted(extract_features_from_reference_JSON(args.reference_model_JSON, all_features=True))]", "for item in extract_features_from_reference_JSON(args.reference_model_JSON, all_features=True)]"),
+    V('C09', 'F20 reintroduced: model combinations in set order', CR, "for combination in sorted(model_combinations)]", "for combination in model_combinations]"),
+    V('C09', 'F15 reintroduced: SGD without random_state', IE, "        return SGDClassifier(max_iter=100000, loss='log_loss', random_state=RANDOM_STATE)\n\n    else:", "        return SGDClassifier(max_iter=100000, loss='log_loss')\n\n    else:"),
+    V('C09', 'shared RandomState object', IE, "RANDOM_STATE = 123\n", "RANDOM_STATE = np.random.RandomState(123)\n"),
+    V('C09', 'SVD without random_state', IE, "TruncatedSVD(n_components=min(SVD_DIMS, X.shape[1]), random_state=RANDOM_STATE)", "TruncatedSVD(n_components=min(SVD_DIMS, X.shape[1]))"),
+    V('C09', 'uimap + zip', CR, "        results = p.amap(get_grounded_importances_estimate, combinations)\n        while not results.ready():\n            time.sleep(4)\n        triplets = results.get()", "        scores = list(p.uimap(lambda c: get_grounded_importances_estimate(c)[2], combinations))\n        triplets = [(c[0], c[1], s) for c, s in zip(combinations, scores)]"),
+    V('C09', 'worker draws from global RNG', IE, "    ranking_score = conduct_feature_ranking(inputs_encoded, output_encoded, args)\n", "    ranking_score = conduct_feature_ranking(inputs_encoded, output_encoded, args)\n    ranking_score += 1e-12 * np.random.random()\n"),
+    V('C09', 'worker caches in a module-level dict', IE, "NUM_FOLDS  = 2\n", "NUM_FOLDS  = 2\nSCORE_CACHE = {}\n", expect='clean'),
+    V('C09', 'worker writes a module-level cache', IE, "    ranking_score = conduct_feature_ranking(inputs_encoded, output_encoded, args)\n", "    ranking_score = conduct_feature_ranking(inputs_encoded, output_encoded, args)\n    global NUM_FOLDS\n    NUM_FOLDS = 2 + len(combination) % 2\n"),
+    V('C09', 'chunk size from num_threads', CR, "        results = p.amap(get_grounded_importances_estimate, combinations)", "        results = p.amap(get_grounded_importances_estimate, combinations[: len(combinations) // args.num_threads * args.num_threads])"),
+    V('C09', 'shuffle seed removed', CR, "random.seed(a=123, version=2)\n", ""),
+    V('C09', 'seed from clock', CR, "random.seed(a=123, version=2)\n", "random.seed(a=int(time.time()), version=2)\n"),
+    V('C09', 'numpy seed only under try', 'outrank/algorithms/feature_ranking/ranking_cov_alignment.py', "np.random.seed(123)\nmax_size", "max_size"),
+    V('C09', 'twin: imap ordered', CR, "        results = p.amap(get_grounded_importances_estimate, combinations)\n        while not results.ready():\n            time.sleep(4)\n        triplets = results.get()", "        triplets = list(p.imap(get_grounded_importances_estimate, combinations))", expect='clean'),
+    V('C09', 'twin: uimap without positional matching', CR, "        results = p.amap(get_grounded_importances_estimate, combinations)\n        while not results.ready():\n            time.sleep(4)\n        triplets = results.get()", "        triplets = list(p.uimap(get_grounded_importances_estimate, combinations))", expect='clean'),
+    V('C09', 'twin: literal random_state', IE, "        return SGDClassifier(max_iter=100000, loss='log_loss', random_state=RANDOM_STATE)\n\n    else:", "        return SGDClassifier(max_iter=100000, loss='log_loss', random_state=7)\n\n    else:", expect='clean'),
+]
